@@ -22,12 +22,13 @@
 (*  transcribed statement by statement, one step per popleft; the          *)
 (*  iteration order of deque(roots - excluded) is a hidden choice.         *)
 (*                                                                         *)
-(* TLC builds every program with <= MaxN tensors, every call on it, runs   *)
-(* the walk(s) and checks  walk = graph layer  (WalkCorrect)  and          *)
-(* graph layer = property layer (DefaultsAreTheLeavesThatMatter); the two  *)
-(* differ only when a loss uses a sibling output of the multi-output op    *)
-(* that produced a feature (the statement is ambiguous there: such         *)
-(* scenarios are flagged `ambig`, counted and give no verdict).            *)
+(* TLC builds every program with <= MaxN tensors; for every call on it it  *)
+(* checks graph layer = property layer (DefaultsAreTheLeavesThatMatter)    *)
+(* and it runs the walk for every (roots, excluded) pair any of these      *)
+(* calls hands to the helper: walk = graph layer (WalkCorrect).  Graph and *)
+(* property layer differ only when a loss uses a sibling output of the     *)
+(* multi-output op that produced a feature (the statement is ambiguous     *)
+(* there: such scenarios are flagged `ambig`, counted, give no verdict).   *)
 (***************************************************************************)
 EXTENDS Integers, Sequences, FiniteSets, TLC, Json
 
@@ -113,7 +114,6 @@ GraphOf(P) ==
                         [] OTHER          -> <<>>],
      acc  |-> {i \in 1..Len(P) : P[i].k = "leaf"}]
 
-GNs(P, T) == {GN(P)[t] : t \in T} \ {0}
 
 \* nodes reachable from roots \ X along paths that avoid X (0 = None edge)
 Reach(G, roots, X) ==
@@ -143,8 +143,6 @@ Extensions(P) ==
                  \cup {Nd("bin", a, b) : a \in 1..n, b \in 1..n}
     IN  leafExt \cup {nd \in opExt : nd.k = "bin" => (nd.a <= nd.b /\ (rg[nd.a] \/ rg[nd.b]))}
 
-NoCall == [fn |-> "none", tensors |-> {}, feats |-> {}, losses |-> <<>>]
-
 InjSeqs(S, maxLen) == {s \in UNION {[1..n -> S] : n \in 1..maxLen} :
                           \A i, j \in DOMAIN s : i # j => s[i] # s[j]}
 
@@ -164,10 +162,13 @@ Calls(P) ==
 \* the invocations of _get_descendant_accumulate_grads a defaulted call performs, in order:
 \*   backward:      (roots = grad_fn of the tensors, excluded = {})
 \*   mtl_backward:  (features, {}) then, per loss, ({loss}, grad_fn of the features)
-JobsOf(P, c) ==
-    IF c.fn = "backward" THEN << [roots |-> GNs(P, c.tensors), excl |-> {}] >>
-    ELSE << [roots |-> GNs(P, c.feats), excl |-> {}] >>
-         \o [i \in 1..Len(c.losses) |-> [roots |-> GNs(P, {c.losses[i]}), excl |-> GNs(P, c.feats)]]
+\* (gn = GN(P), passed in so that it is computed once per program)
+NodesOf(gn, T) == {gn[t] : t \in T} \ {0}
+JobsOfG(gn, c) ==
+    IF c.fn = "backward" THEN << [roots |-> NodesOf(gn, c.tensors), excl |-> {}] >>
+    ELSE << [roots |-> NodesOf(gn, c.feats), excl |-> {}] >>
+         \o [i \in 1..Len(c.losses) |-> [roots |-> NodesOf(gn, {c.losses[i]}), excl |-> NodesOf(gn, c.feats)]]
+JobsOf(P, c) == JobsOfG(GN(P), c)
 
 \* for child, _ in node.next_functions:
 \*     if child is not None and child not in excluded_nodes: append(child); excluded_nodes.add(child)
@@ -178,21 +179,24 @@ Scan(ch, q, x) ==
          IF c # 0 /\ c \notin x THEN Scan(Tail(ch), Append(q, c), x \cup {c})
          ELSE Scan(Tail(ch), q, x)
 
+\* every (roots, excluded) pair that some call on P hands to the helper
+ProgramJobs(P) == LET gn == GN(P) IN UNION {Range(JobsOfG(gn, c)) : c \in Calls(P)}
+
 (* --algorithm LeafWalk {
   variables
     P = <<>>,             \* the tensor program (build phase)
-    req = NoCall,        \* the call (request) whose defaults are resolved
     G = EmptyGraph,       \* the autograd graph that is walked
-    jobs = <<>>,          \* pending invocations [roots, excl] of the helper
-    results = <<>>,       \* their results, in order
+    alljobs = <<>>,       \* the invocations [roots, excl] of the helper to perform
+    jobs = <<>>,          \* those still pending
+    results = <<>>,       \* results of the completed ones, in order
     excluded = {}, result = {}, queue = <<>>, node = 0,
     dequeued = <<>>;      \* nodes of the current invocation in popleft order (observation only)
   {
   Build:
-    while (req = NoCall) {
+    while (alljobs = <<>>) {
       either { await Len(P) < MaxN;
                with (nd \in Extensions(P)) { P := Append(P, nd) } }
-      or     { with (c \in Calls(P)) { req := c; G := GraphOf(P); jobs := JobsOf(P, c) } }
+      or     { with (j \in ProgramJobs(P)) { G := GraphOf(P); alljobs := <<j>>; jobs := <<j>> } }
     };
   Jobs:
     while (jobs # <<>>) {
@@ -218,16 +222,16 @@ Scan(ch, q, x) ==
   }
 } *)
 \* BEGIN TRANSLATION
-VARIABLES pc, P, req, G, jobs, results, excluded, result, queue, node, 
+VARIABLES pc, P, G, alljobs, jobs, results, excluded, result, queue, node, 
           dequeued
 
-vars == << pc, P, req, G, jobs, results, excluded, result, queue, node, 
+vars == << pc, P, G, alljobs, jobs, results, excluded, result, queue, node, 
            dequeued >>
 
 Init == (* Global variables *)
         /\ P = <<>>
-        /\ req = NoCall
         /\ G = EmptyGraph
+        /\ alljobs = <<>>
         /\ jobs = <<>>
         /\ results = <<>>
         /\ excluded = {}
@@ -238,19 +242,19 @@ Init == (* Global variables *)
         /\ pc = "Build"
 
 Build == /\ pc = "Build"
-         /\ IF req = NoCall
+         /\ IF alljobs = <<>>
                THEN /\ \/ /\ Len(P) < MaxN
                           /\ \E nd \in Extensions(P):
                                P' = Append(P, nd)
-                          /\ UNCHANGED <<req, G, jobs>>
-                       \/ /\ \E c \in Calls(P):
-                               /\ req' = c
+                          /\ UNCHANGED <<G, alljobs, jobs>>
+                       \/ /\ \E j \in ProgramJobs(P):
                                /\ G' = GraphOf(P)
-                               /\ jobs' = JobsOf(P, c)
+                               /\ alljobs' = <<j>>
+                               /\ jobs' = <<j>>
                           /\ P' = P
                     /\ pc' = "Build"
                ELSE /\ pc' = "Jobs"
-                    /\ UNCHANGED << P, req, G, jobs >>
+                    /\ UNCHANGED << P, G, alljobs, jobs >>
          /\ UNCHANGED << results, excluded, result, queue, node, dequeued >>
 
 Jobs == /\ pc = "Jobs"
@@ -263,7 +267,7 @@ Jobs == /\ pc = "Jobs"
                    /\ pc' = "Loop"
               ELSE /\ pc' = "Done"
                    /\ UNCHANGED << excluded, result, queue, dequeued >>
-        /\ UNCHANGED << P, req, G, jobs, results, node >>
+        /\ UNCHANGED << P, G, alljobs, jobs, results, node >>
 
 Loop == /\ pc = "Loop"
         /\ IF queue # <<>>
@@ -282,7 +286,7 @@ Loop == /\ pc = "Loop"
                    /\ jobs' = Tail(jobs)
                    /\ pc' = "Jobs"
                    /\ UNCHANGED << excluded, result, queue, node, dequeued >>
-        /\ UNCHANGED << P, req, G >>
+        /\ UNCHANGED << P, G, alljobs >>
 
 (* Allow infinite stuttering to prevent deadlock on termination. *)
 Terminating == pc = "Done" /\ UNCHANGED vars
@@ -297,39 +301,19 @@ Termination == <>(pc = "Done")
 \* END TRANSLATION
 
 -----------------------------------------------------------------------------
-(* Results predicted by the graph layer and by the property layer           *)
+(* implementation = graph layer                                            *)
 
-AllJobs      == JobsOf(P, req)
-GraphSet(j)  == ReachAcc(G, AllJobs[j].roots, AllJobs[j].excl)
-TensorSet(j) == IF req.fn = "backward" THEN TDeps(P, req.tensors, {})
-                ELSE IF j = 1 THEN TDeps(P, req.feats, {})
-                ELSE TDeps(P, {req.losses[j - 1]}, req.feats)
+Started == alljobs # <<>>
+Ended   == pc = "Done"
 
-\* a non-feature tensor that shares its grad_fn with a feature (sibling output of a multi-output op)
-HasSibling == \E u \in 1..Len(P) : u \notin req.feats /\ GN(P)[u] # 0 /\ GN(P)[u] \in GNs(P, req.feats)
-Ambiguous  == req.fn = "mtl" /\ \E j \in 1..Len(AllJobs) : GraphSet(j) # TensorSet(j)
+\* the walk returns exactly the AccumulateGrad nodes reachable from roots \ excluded along paths
+\* avoiding excluded, whatever the initial order of the deque
+WalkCorrect == Ended => /\ Len(results) = Len(alljobs)
+                        /\ \A j \in 1..Len(alljobs) :
+                              results[j] = ReachAcc(G, alljobs[j].roots, alljobs[j].excl)
 
-Chosen == req # NoCall
-JustChosen == pc = "Jobs" /\ results = <<>> /\ req # NoCall      \* one state per (program, call)
-Ended  == pc = "Done"
-
-\* implementation = graph layer: the walk returns exactly the AccumulateGrad nodes reachable from
-\* roots \ excluded along paths avoiding excluded, whatever the initial order of the deque
-WalkCorrect == Ended => /\ Len(results) = Len(AllJobs)
-                        /\ \A j \in 1..Len(AllJobs) : results[j] = GraphSet(j)
-
-\* graph layer = property layer: the default sets are the leaves that matter
-DefaultsAreTheLeavesThatMatter ==
-    JustChosen =>
-              /\ (req.fn = "backward" => GraphSet(1) = TensorSet(1))
-              /\ (req.fn = "mtl" => GraphSet(1) = TensorSet(1))
-              /\ (~Ambiguous => \A j \in 1..Len(AllJobs) : GraphSet(j) = TensorSet(j))
-              /\ (Ambiguous => HasSibling)
-
-\* only leaves requiring grad are ever returned, and a defaulted set is never empty for tensors
-\* that require grad
-OnlyLeavesRequiringGrad == \A j \in 1..Len(results) : \A l \in results[j] : P[l].k = "leaf"
-NonEmptyDefault == JustChosen => GraphSet(1) # {}
+\* only AccumulateGrad nodes are ever returned
+OnlyLeavesRequiringGrad == \A j \in 1..Len(results) : results[j] \subseteq G.acc
 
 \* implementation-layer observations: every node is dequeued at most once, except that a root which
 \* is a descendant of another root may be dequeued twice (roots are not marked as seen); hence the
@@ -339,39 +323,63 @@ BoundedWork == pc = "Loop" =>
                    \A x \in Range(dequeued) :
                       Occ(dequeued, x) <= (IF x \in Head(jobs).roots THEN 2 ELSE 1)
 
-\* once the call is chosen, every invocation of the helper terminates (checked under weak fairness)
+\* once started, every invocation of the helper terminates (checked under weak fairness)
 FairSpec   == Spec /\ WF_vars(Next)
-WalkEnds   == Chosen ~> Ended
+WalkEnds   == Started ~> Ended
 
 TypeOK == /\ Len(P) <= MaxN
           /\ pc \in {"Build", "Jobs", "Loop", "Done"}
           /\ result \subseteq G.acc
 
 -----------------------------------------------------------------------------
-(* What the call must do, as one record (used by the export and by TraceLeafWalk)           *)
+(* graph layer = property layer, for every call c on the program P          *)
 
-Shared   == GraphSet(1)
-Tasks    == [i \in 1..Len(req.losses) |-> GraphSet(i + 1)]
-Overlap  == req.fn = "mtl" /\ \E i \in 1..Len(req.losses) : Tasks[i] \cap Shared # {}
+TensorSet(c, j) == IF c.fn = "backward" THEN TDeps(P, c.tensors, {})
+                   ELSE IF j = 1 THEN TDeps(P, c.feats, {})
+                   ELSE TDeps(P, {c.losses[j - 1]}, c.feats)
 
-Scenario == [prog |-> P, fn |-> req.fn, tensors |-> req.tensors, feats |-> req.feats,
-             losses |-> req.losses, rg |-> RG(P), gn |-> GN(P),
-             next |-> G.next, acc |-> G.acc,
-             inputs |-> IF req.fn = "backward" THEN GraphSet(1) ELSE {},
-             shared |-> IF req.fn = "mtl" THEN Shared ELSE {},
-             tasks  |-> IF req.fn = "mtl" THEN Tasks ELSE <<>>,
-             overlap |-> Overlap, ambig |-> Ambiguous,
-             tshared |-> IF req.fn = "mtl" THEN TensorSet(1) ELSE {},
-             ttasks  |-> IF req.fn = "mtl" THEN [i \in 1..Len(req.losses) |-> TensorSet(i + 1)] ELSE <<>>]
+\* everything the statement says about call c, computed once: graph-level sets gs (what the
+\* helper returns, by WalkCorrect), tensor-level sets ts (what the statement names)
+Facts(gn, GG, c) ==
+    LET jb == JobsOfG(gn, c)
+        gs == [j \in 1..Len(jb) |-> ReachAcc(GG, jb[j].roots, jb[j].excl)]
+        ts == [j \in 1..Len(jb) |-> TensorSet(c, j)]
+    IN  [gs |-> gs, ts |-> ts,
+         ambig   |-> c.fn = "mtl" /\ gs # ts,
+         overlap |-> c.fn = "mtl" /\ \E i \in 2..Len(gs) : gs[i] \cap gs[1] # {},
+         \* a non-feature tensor shares its grad_fn with a feature (sibling output of a multi-output op)
+         sibling |-> \E u \in 1..Len(P) : u \notin c.feats /\ gn[u] # 0 /\ gn[u] \in NodesOf(gn, c.feats)]
+
+Scenario(c, f) == [prog |-> P, fn |-> c.fn, tensors |-> c.tensors, feats |-> c.feats, losses |-> c.losses,
+                   inputs |-> IF c.fn = "backward" THEN f.gs[1] ELSE {},
+                   shared |-> IF c.fn = "mtl" THEN f.gs[1] ELSE {},
+                   tasks  |-> IF c.fn = "mtl" THEN [i \in 1..Len(c.losses) |-> f.gs[i + 1]] ELSE <<>>,
+                   overlap |-> f.overlap, ambig |-> f.ambig]
 
 KindCode(k) == CASE k = "leaf" -> 1 [] k = "const" -> 2 [] k = "un" -> 3 [] k = "bin" -> 5
                  [] k = "det" -> 7 [] k = "mo1" -> 11 [] OTHER -> 13
-ScnHash == SumSeq([i \in 1..Len(P) |-> i * KindCode(P[i].k) + (i + 2) * P[i].a + (2 * i + 1) * P[i].b])
-           + 31 * SumSeq([i \in 1..Len(P) |-> IF i \in req.tensors THEN i * i ELSE 0])
-           + 37 * SumSeq([i \in 1..Len(P) |-> IF i \in req.feats THEN i * i + 1 ELSE 0])
-           + 41 * SumSeq([i \in 1..Len(req.losses) |-> (i + 1) * req.losses[i]])
+ProgHash == SumSeq([i \in 1..Len(P) |-> i * KindCode(P[i].k) + (i + 2) * P[i].a + (2 * i + 1) * P[i].b])
+ScnHash(c) == 31 * SumSeq([i \in 1..Len(P) |-> IF i \in c.tensors THEN i * i ELSE 0])
+              + 37 * SumSeq([i \in 1..Len(P) |-> IF i \in c.feats THEN i * i + 1 ELSE 0])
+              + 41 * SumSeq([i \in 1..Len(c.losses) |-> (i + 1) * c.losses[i]])
 
-\* exported once per (program, call): in the state right after the call was chosen
-Export == (JustChosen /\ (ScnHash % SampleMod) = SamplePick)
-             => PrintT(<<"SCN", ToJson(Scenario)>>)
+\* one state per program: the build state (the walks branch off from it)
+AtProgram == pc = "Build" /\ alljobs = <<>>
+
+\* C12 on the model: the default sets are the leaves that matter - the set a defaulted call uses
+\* for `inputs` / `shared_params` always, the per-task sets unless the program is ambiguous (a loss
+\* uses a sibling output of a feature's multi-output op); a default set for tensors that require
+\* grad is never empty.  Every (program, call) is exported from here, once.
+DefaultsAreTheLeavesThatMatter ==
+    AtProgram =>
+        LET gn == GN(P)
+            GG == GraphOf(P)
+            ph == ProgHash
+        IN  \A c \in Calls(P) :
+               LET f == Facts(gn, GG, c) IN
+               /\ f.gs[1] = f.ts[1]
+               /\ f.gs[1] # {}
+               /\ (~f.ambig => f.gs = f.ts)
+               /\ (f.ambig => f.sibling)
+               /\ (((ph + ScnHash(c)) % SampleMod) = SamplePick) => PrintT(<<"SCN", ToJson(Scenario(c, f))>>)
 =============================================================================
